@@ -326,3 +326,33 @@ ROUND4_MUTANTS = [
 ]
 TWINS = TWINS + ROUND4_TWINS
 MUTANTS = MUTANTS + ROUND4_MUTANTS
+
+# ---------------------------------------------------------------------------------------------------------------------
+# round 5 (blind seed C16-I): read side of the typed properties - the default is returned only for an absent key, a
+# present header reads back as its loaded value whatever its text (presence by membership / `is None` / sentinel /
+# KeyError, never by truthiness of the stored text)
+_GET_PRESENCE = "        if self.name not in storage:\n            return self.default  # type: ignore\n\n        value = storage[self.name]\n"
+ROUND5_TWINS = [
+    {"name": "accessor-get-eafp-keyerror", "edits": [(I, _GET_PRESENCE, "        try:\n            value = storage[self.name]\n        except KeyError:\n            return self.default  # type: ignore\n")]},
+    {"name": "accessor-get-get-is-none", "edits": [(I, _GET_PRESENCE, "        value = storage.get(self.name)\n\n        if value is None:\n            return self.default  # type: ignore\n")]},
+    {"name": "accessor-get-sentinel-fallback", "edits": [(I, _GET_PRESENCE, "        value = storage.get(self.name, _missing)\n\n        if value is _missing:\n            return self.default  # type: ignore\n")]},
+    {"name": "accessor-get-presence-helper-flipped", "edits": [
+        (I, _GET_PRESENCE, "        if not self._present(storage):\n            return self.default  # type: ignore\n\n        value = storage[self.name]\n"),
+        (I, "    def __set__(self, instance: t.Any, value: _TAccessorValue) -> None:", "    def _present(self, storage: t.Any) -> bool:\n        return self.name in storage\n\n    def __set__(self, instance: t.Any, value: _TAccessorValue) -> None:"),
+    ]},
+    {"name": "accessor-get-positive-branch-default-last", "edits": [(I,
+        "        if self.name not in storage:\n            return self.default  # type: ignore\n\n        value = storage[self.name]\n\n        if self.load_func is not None:\n            try:\n                return self.load_func(value)\n            except (ValueError, TypeError):\n                return self.default  # type: ignore\n\n        return value  # type: ignore\n",
+        "        if self.name in storage:\n            value = storage[self.name]\n\n            if self.load_func is None:\n                return value  # type: ignore\n\n            try:\n                return self.load_func(value)\n            except (ValueError, TypeError):\n                pass\n\n        return self.default  # type: ignore\n")]},
+]
+ROUND5_MUTANTS = [
+    {"name": "accessor-get-truthiness-of-get", "expect": "R16.6", "edits": [(I, _GET_PRESENCE, "        if not storage.get(self.name):\n            return self.default  # type: ignore\n\n        value = storage[self.name]\n")]},
+    {"name": "accessor-get-none-or-empty-length", "expect": "R16.6", "edits": [(I, _GET_PRESENCE, "        value = storage.get(self.name)\n\n        if value is None or len(value) == 0:\n            return self.default  # type: ignore\n")]},
+    {"name": "accessor-get-absent-or-equals-empty-string", "expect": "R16.6", "edits": [(I, _GET_PRESENCE, "        if self.name not in storage or storage[self.name] == \"\":\n            return self.default  # type: ignore\n\n        value = storage[self.name]\n")]},
+    {"name": "shape:eafp-then-truthiness", "expect": "R16.6", "edits": [(I, _GET_PRESENCE, "        try:\n            value = storage[self.name]\n        except KeyError:\n            return self.default  # type: ignore\n\n        if not value:\n            return self.default  # type: ignore\n")]},
+    {"name": "shape:sentinel-fallback-or-falsy", "expect": "R16.6", "edits": [(I, _GET_PRESENCE, "        value = storage.get(self.name, _missing)\n\n        if value is _missing or not value:\n            return self.default  # type: ignore\n")]},
+    {"name": "shape:positive-branch-on-truthy-item", "expect": "R16.6", "edits": [(I,
+        "        if self.name not in storage:\n            return self.default  # type: ignore\n\n        value = storage[self.name]\n\n        if self.load_func is not None:\n            try:\n                return self.load_func(value)\n            except (ValueError, TypeError):\n                return self.default  # type: ignore\n\n        return value  # type: ignore\n",
+        "        value = storage.get(self.name)\n\n        if value:\n            if self.load_func is None:\n                return value  # type: ignore\n\n            try:\n                return self.load_func(value)\n            except (ValueError, TypeError):\n                pass\n\n        return self.default  # type: ignore\n")]},
+]
+TWINS = TWINS + ROUND5_TWINS
+MUTANTS = MUTANTS + ROUND5_MUTANTS
